@@ -10,7 +10,7 @@ insights/parsr/query/boolean.py (the predicate algebra with its two evaluators).
   query/__init__.py:818-871    NameQ/AttrQ/Query and `Query.eval` = _desugar_name/_desugar_attr/
                                _desugar_attrs/_desugar
   query/__init__.py:874-912    `flatten` = _flatten, `matchLv`/`runQueries` = compile_queries.match
-  query/__init__.py:915-935    `selectNodes`, `rootsOf`, `select` = select(query, nodes, deep, roots)
+  query/__init__.py:915-935    `selectNodes`, `rootsOf`, `select` = select(query, nodes, deep, roots)  (with fix 9796838)
   query/__init__.py:231-240    `Node.root` (Entry.root: furthest ancestor, None for a parentless node)
   query/__init__.py:266-283, 408-412, 628-630, 691-695   Entry/Result .select/.find/__getitem__
 
@@ -292,22 +292,24 @@ def runQueries {α : Type} (kids : α → List α) : List (α → Bool) → List
 def selectNodes (ρ : Env) (qs : List Query) (nodes : List Node) (deep : Bool) : Option (List Node) :=
   runQueries Node.kids (qs.map (Query.eval ρ)) (if deep then flatten nodes else nodes)
 
-/-- identity of a root (None is hashable and goes into `seen` like any Entry) -/
-def rootKey (r : Option Tree) : Option Nat := r.map Tree.id
+/-- `r.root if r.root is not None else r` (select, after fix 9796838): the furthest ancestor, and the
+node itself when it has no parent -/
+def Node.rootOrSelf (n : Node) : Tree := n.root.getD n.tree
 
-/-- the loop `for r in results: root = r.root; if root not in seen: seen.add(root); top.append(root)` -/
-def rootsLoop : List Node → List (Option Nat) → List (Option Tree) → List (Option Tree)
+/-- the loop `for r in results: root = r.root if r.root is not None else r;
+if root not in seen: seen.add(root); top.append(root)`; `seen` holds identities -/
+def rootsLoop : List Node → List Nat → List Tree → List Tree
   | [], _, top => top
   | r :: rs, seen, top =>
-    if seen.contains (rootKey r.root) then rootsLoop rs seen top
-    else rootsLoop rs (rootKey r.root :: seen) (top ++ [r.root])
+    if seen.contains r.rootOrSelf.id then rootsLoop rs seen top
+    else rootsLoop rs (r.rootOrSelf.id :: seen) (top ++ [r.rootOrSelf])
 
-def rootsOf (results : List Node) : List (Option Tree) := rootsLoop results [] []
+def rootsOf (results : List Node) : List Tree := rootsLoop results [] []
 
-/-- what `select(query, nodes, deep, roots)` returns, as identities (None = a `None` child) -/
-def select (ρ : Env) (qs : List Query) (nodes : List Node) (deep roots : Bool) : Option (List (Option Nat)) :=
+/-- what `select(query, nodes, deep, roots)` returns, as identities -/
+def select (ρ : Env) (qs : List Query) (nodes : List Node) (deep roots : Bool) : Option (List Nat) :=
   (selectNodes ρ qs nodes deep).map (fun res =>
-    if roots then (rootsOf res).map rootKey else res.map (fun n => some n.id))
+    if roots then (rootsOf res).map Tree.id else res.map Node.id)
 
 /-- `Entry.select(*qs, deep, roots)`: over the entry's children -/
 def entrySelect (ρ : Env) (e : Node) (qs : List Query) (deep roots : Bool) :=
